@@ -19,5 +19,5 @@ type Pairing struct {
 	Check func(variant string, as, bs []*big.Int) (bool, error)
 }
 
-var GTVariants = []string{"Pair", "MillerLoop+FinalExponentiation", "split-MillerLoops+FinalExponentiation", "PairFixedQ", "MillerLoopFixedQ+FinalExponentiation"}
+var GTVariants = []string{"Pair", "MillerLoop+FinalExponentiation", "split-MillerLoops+FinalExponentiation", "per-pair-MillerLoops+FinalExponentiation", "PairFixedQ", "MillerLoopFixedQ+FinalExponentiation"}
 var CheckVariants = []string{"PairingCheck", "PairingCheckFixedQ"}
